@@ -101,6 +101,7 @@ def clear_cache():
 
 def find_function(qual):
     """'pkg.mod:Class.method' or 'pkg.mod:func' -> (ModuleInfo, ClassDef|None, FunctionDef)."""
+    qual = qual.split("#")[0]  # "mod:func#label": a second (region) contract on the same function
     modname, _, path = qual.partition(":")
     mod = load_module(modname)
     if mod is None:
